@@ -544,3 +544,88 @@ def _c14_extra3():
 
 
 EXTRA["C14"] = _c14_extra3
+
+
+# ---- phase 4: the 3-D branch of `MRIModelEngine.evaluate` (slice and time axes merged before the metrics) -------------
+def _eval3d(tree):
+    """(If node of the ndim == 3 branch, {python dim name -> d<i>}, VOL name, TGT name, loop body) of `evaluate`"""
+    fn = find_function(tree, "MRIModelEngine.evaluate")
+    loop = next(st for st in ast.walk(fn) if isinstance(st, ast.For) and "reconstruct_volumes" in ast.unparse(st.iter))
+    unpack = next(st for st in loop.body if isinstance(st, ast.Assign) and isinstance(st.targets[0], ast.Tuple)
+                  and isinstance(st.value, ast.Name))
+    names = [e.id for e in unpack.targets[0].elts]
+    vol, tgt = names[0], names[1]
+    br = next(st for st in loop.body if isinstance(st, ast.If) and ast.unparse(st.test) == "self.ndim == 3")
+    shp = next(st for st in br.body if isinstance(st, ast.Assign) and isinstance(st.targets[0], ast.Tuple)
+               and ast.unparse(st.value) == f"{vol}.shape")
+    dims = {e.id: f"d{i}" for i, e in enumerate(shp.targets[0].elts)}
+    return br, dims, vol, tgt, loop
+
+
+def _reshape_call(br, src):
+    """the `<src>.clone().transpose(a, b).reshape(...)` call assigned in the branch -> (assigned name, transpose args, reshape args)"""
+    for st in br.body:
+        if isinstance(st, ast.Assign) and isinstance(st.value, ast.Call) and isinstance(st.value.func, ast.Attribute) \
+                and st.value.func.attr in ("reshape", "view") and ast.unparse(st.value).startswith(src + "."):
+            inner = st.value.func.value
+            if not (isinstance(inner, ast.Call) and isinstance(inner.func, ast.Attribute) and inner.func.attr == "transpose"
+                    and ast.unparse(inner.func.value) == f"{src}.clone()"):
+                raise Untranslatable(f"unexpected chain `{ast.unparse(st.value)}`")
+            args = st.value.args
+            if len(args) == 1 and isinstance(args[0], (ast.Tuple, ast.List)):
+                args = args[0].elts
+            return st.targets[0].id, [ast.unparse(a) for a in inner.args], list(args)
+    raise Untranslatable(f"no reshape of {src} in the ndim == 3 branch")
+
+
+def _eval3d_rows(k, _fn):
+    from ..gen import REPO
+    br, dims, vol, _tgt, _loop = _eval3d(parse_file(REPO / M))
+    _name, _tr, args = _reshape_call(br, vol)
+    return emit_def(k.name, k.params, [], ExprTr(dims).int(args[0]))
+
+
+def eval3d_facts(tree=None) -> list[str]:
+    from ..gen import REPO
+    br, dims, vol, tgt, loop = _eval3d(tree or parse_file(REPO / M))
+    out = [f"dims of VOL.shape: {len(dims)}"]
+    ren = {}
+    for src, role in ((vol, "VOL"), (tgt, "TGT")):
+        name, tr, args = _reshape_call(br, src)
+        ren[name] = "EVAL_" + role
+        tr_e = ExprTr(dims)
+        out.append(f"ndim == 3: EVAL_{role}={role}.clone().transpose({', '.join(tr)}).reshape(" +
+                   ", ".join(["ROWS" if tr_e.int(args[0]) in ("(d0 * d2)", "(d2 * d0)") else tr_e.int(args[0])] +
+                             [tr_e.int(a) for a in args[1:]]) + ")")
+    for st in br.orelse:
+        if isinstance(st, ast.Assign) and isinstance(st.targets[0], ast.Name):
+            v = ast.unparse(st.value).replace(vol, "VOL").replace(tgt, "TGT")
+            out.append(f"otherwise: {ren.get(st.targets[0].id, st.targets[0].id)}={v}")
+    for st in loop.body:
+        for c in ast.walk(st):
+            if isinstance(c, ast.Call) and ast.unparse(c.func) == "metric_fn":
+                out.append("metric_fn(" + ", ".join(ren.get(ast.unparse(a), ast.unparse(a)) for a in c.args) + ")")
+    return out
+
+
+register("C14", [
+    Kernel("eval3d_rows", M, "MRIModelEngine.evaluate", ["d0", "d1", "d2", "d3", "d4"], "(fun d0 _ d2 _ _ => d0 * d2)",
+           _eval3d_rows, imports=IMP),
+])
+
+_prev_extra4 = EXTRA["C14"]
+
+
+def _c14_extra4():
+    text, status = _prev_extra4()
+    try:
+        v = eval3d_facts()
+        text += f"\n/-- read from `MRIModelEngine.evaluate` (phase 4) -/\ndef eval3d_facts : List String :=\n  {_strs(v)}\n"
+        status["eval3d_facts"] = "translated"
+    except (Untranslatable, SyntaxError, OSError, AttributeError, IndexError, StopIteration) as e:
+        text += f"\n/-- SKIPPED ({type(e).__name__}: {e}) -/\ndef eval3d_facts : List String := Recon.expectedEval3dFacts\n"
+        status["eval3d_facts"] = f"skipped: {e}"
+    return text, status
+
+
+EXTRA["C14"] = _c14_extra4
